@@ -95,7 +95,7 @@ def normalise(j):
     """transform the fact JSON in place; returns a list of notes"""
     notes = []
     if not os.path.exists(KNOWN):
-        return notes
+        return desugar_combinators(j)
     known = json.load(open(KNOWN))
     kpaths = {k['path']: k for k in known}
     fns = j['functions']
@@ -139,7 +139,7 @@ def normalise(j):
     new = [f for f in new if 'renamed_from' not in f]
     newp = {f['path']: f for f in new}
     if not newp:
-        return notes
+        return notes + desugar_combinators(j)
     # recursion among new helpers: never inline a helper that can reach itself
     calls = {p: {b['term'].get('resolved') or b['term'].get('callee') for b in f['blocks'] if b['term']['k'] == 'call'} & set(newp) for p, f in newp.items()}
 
@@ -187,4 +187,200 @@ def normalise(j):
         notes.append('new helper %s inlined at %d call site(s)%s' % (p, count[p], '' if p in drop else ' (still referenced elsewhere: kept as a function too)'))
     if drop:
         j['functions'] = [f for f in fns if f['path'] not in drop]
+    return notes + desugar_combinators(j)
+
+
+# ---------------------------------------------------------------------------
+# combinators with closures: `c.then(|| e)`, `o.map(|x| e)`, `r.map_err(|e| ..)`, `o.map_or(d, |x| ..)`, ...
+# are rewritten into the match they stand for, with the closure body inlined, so rules see the same control
+# and data flow as in the `match`/`if let` spelling.
+# ---------------------------------------------------------------------------
+
+OPT = ('std::option::Option', [['0', 'None'], ['1', 'Some']])
+RES = ('std::result::Result', [['0', 'Ok'], ['1', 'Err']])
+
+# callee -> (enum of receiver or None for bool, variant index on which the closure runs, how the result is built)
+COMBINATORS = {
+    'std::primitive::bool::then': ('bool', 1, 'wrap_some_else_none'),
+    'core::bool::<impl bool>::then': ('bool', 1, 'wrap_some_else_none'),
+    'std::option::Option::<T>::map': (OPT, 1, 'wrap_same_else_same'),
+    'std::option::Option::<T>::map_or': (OPT, 1, 'value_else_default'),
+    'std::option::Option::<T>::is_some_and': (OPT, 1, 'value_else_false'),
+    'std::option::Option::<T>::unwrap_or_else': (OPT, 0, 'value_else_payload'),
+    'std::option::Option::<T>::and_then': (OPT, 1, 'value_else_same'),
+    'std::result::Result::<T, E>::map': (RES, 0, 'wrap_same_else_same'),
+    'std::result::Result::<T, E>::map_err': (RES, 1, 'wrap_same_else_same'),
+    'std::result::Result::<T, E>::and_then': (RES, 0, 'value_else_same'),
+    'std::result::Result::<T, E>::unwrap_or_else': (RES, 1, 'value_else_payload'),
+    'std::result::Result::<T, E>::is_ok_and': (RES, 0, 'value_else_false'),
+    'std::result::Result::<T, E>::is_err_and': (RES, 1, 'value_else_false'),
+}
+
+
+def _closure_of(f, op, fns_by_path):
+    """(closure local, closure fn) when operand op is a local whose only definition builds a closure"""
+    if 'l' not in op or op['p']:
+        return None
+    defs = []
+    for b in f['blocks']:
+        for s in b['stmts']:
+            if s['k'] == 'assign' and s['lhs']['l'] == op['l'] and not s['lhs']['p']:
+                defs.append(s)
+        t = b['term']
+        if t['k'] == 'call' and t['dest']['l'] == op['l']:
+            defs.append(t)
+    if len(defs) != 1 or defs[0].get('k') != 'assign':
+        return None
+    rv = defs[0]['rv']
+    if rv['k'] != 'agg' or rv.get('ak') != 'closure':
+        return None
+    g = fns_by_path.get(rv.get('closure'))
+    if g is None or g['kind'] != 'closure':
+        return None
+    return op['l'], g
+
+
+def _new_local(f, ty):
+    f['locals'].append({'ty': ty, 'mut': True})
+    return len(f['locals']) - 1
+
+
+def _pl(l, ty='', p=None):
+    return {'l': l, 'p': p or [], 'ty': ty}
+
+
+def _use(l, ty='', kind='move', p=None):
+    return {'l': l, 'p': p or [], 'ty': ty, 'k': kind}
+
+
+def _assign(lhs, rv, span):
+    return {'k': 'assign', 'lhs': lhs, 'rv': rv, 'span': span, 'text': 'desugared combinator'}
+
+
+def _agg(adt, variant, vidx, ops, full=''):
+    return {'k': 'agg', 'ak': 'adt', 'adt': adt, 'adt_full': full or adt, 'variant': variant, 'vidx': vidx, 'fields': ['0'] if ops else [], 'ops': ops}
+
+
+def desugar_combinators(j):
+    notes = []
+    fns_by_path = {}
+    for f in j['functions']:
+        fns_by_path.setdefault(f['path'], f)
+    count = {}
+    for f in j['functions']:
+        bi = 0
+        while bi < len(f['blocks']):
+            blk = f['blocks'][bi]
+            t = blk['term']
+            bi += 1
+            if t['k'] != 'call' or blk.get('cleanup') or t.get('target') is None or t['dest']['p']:
+                continue
+            spec = COMBINATORS.get(t.get('callee') or '')
+            if spec is None:
+                continue
+            recv_kind, run_on, build = spec
+            args = t['args']
+            if build == 'value_else_default':
+                if len(args) != 3:
+                    continue
+                recv, default, clo_op = args
+            else:
+                if len(args) != 2:
+                    continue
+                recv, clo_op = args
+                default = None
+            got = _closure_of(f, clo_op, fns_by_path)
+            if got is None:
+                continue
+            clo_local, g = got
+            if len(g['blocks']) > MAX_BLOCKS:
+                continue
+            span = t.get('span')
+            dest, target = t['dest'], t['target']
+            ret_ty = g['locals'][0]['ty']
+            nparams = g['arg_count'] - 1          # parameters besides the environment
+            # receiver into a local
+            if 'l' in recv and not recv['p']:
+                r_local = recv['l']
+            else:
+                r_local = _new_local(f, recv.get('ty', ''))
+                blk['stmts'].append(_assign(_pl(r_local, recv.get('ty', '')), {'k': 'use', 'op': recv}, span))
+            r_ty = f['locals'][r_local]['ty']
+            # environment operand for the closure body
+            env_ty = g['locals'][1]['ty'] if len(g['locals']) > 1 else ''
+            if env_ty.startswith('&'):
+                e_local = _new_local(f, env_ty)
+                env_stmt = _assign(_pl(e_local, env_ty), {'k': 'ref', 'mut': env_ty.startswith('&mut'), 'place': _pl(clo_local, f['locals'][clo_local]['ty'])}, span)
+                env_op = _use(e_local, env_ty)
+            else:
+                env_stmt = None
+                env_op = _use(clo_local, f['locals'][clo_local]['ty'])
+            # blocks: run (closure on the chosen variant), other (the remaining variant), both continue at target
+            run_bb = len(f['blocks'])
+            f['blocks'].append({'cleanup': False, 'stmts': [], 'term': None, 'desugared': t.get('callee')})
+            oth_bb = len(f['blocks'])
+            f['blocks'].append({'cleanup': False, 'stmts': [], 'term': {'k': 'goto', 'target': target, 'span': span}, 'desugared': t.get('callee')})
+            run, oth = f['blocks'][run_bb], f['blocks'][oth_bb]
+            res_local = _new_local(f, ret_ty)
+            call_args = [env_op]
+            if recv_kind == 'bool':
+                blk['term'] = {'k': 'switch', 'discr': _use(r_local, 'bool', 'copy'), 'discr_ty': 'bool', 'targets': [['0', oth_bb]], 'otherwise': run_bb, 'span': span}
+                if nparams != 0:
+                    f['blocks'] = f['blocks'][:run_bb]
+                    blk['term'] = t
+                    continue
+            else:
+                adt, variants = recv_kind
+                d_local = _new_local(f, 'isize')
+                blk['stmts'].append(_assign(_pl(d_local, 'isize'), {'k': 'discr', 'place': _pl(r_local, r_ty), 'adt': adt, 'variants': variants}, span))
+                blk['term'] = {'k': 'switch', 'discr': _use(d_local, 'isize'), 'discr_ty': 'isize', 'targets': [[str(run_on), run_bb]], 'otherwise': oth_bb, 'span': span}
+                has_payload = not (adt == OPT[0] and run_on == 0)
+                if nparams == 1 and has_payload:
+                    p_ty = g['locals'][2]['ty'] if len(g['locals']) > 2 else ''
+                    vname = dict((int(a), b) for a, b in variants)[run_on]
+                    call_args.append(_use(r_local, p_ty, 'move', [{'k': 'downcast', 'variant': vname, 'vidx': run_on}, {'k': 'field', 'i': 0, 'ty': p_ty, 'name': '0'}]))
+                elif nparams != 0:
+                    f['blocks'] = f['blocks'][:run_bb]
+                    blk['term'] = t
+                    blk['stmts'].pop()
+                    continue
+            if env_stmt is not None:
+                run['stmts'].append(env_stmt)
+            # the inlined closure call, result in res_local, then build the combinator's result
+            after_bb = len(f['blocks'])
+            f['blocks'].append({'cleanup': False, 'stmts': [], 'term': {'k': 'goto', 'target': target, 'span': span}, 'desugared': t.get('callee')})
+            run['term'] = {'k': 'call', 'callee': g['path'], 'resolved': g['path'], 'args': call_args, 'dest': _pl(res_local, ret_ty), 'target': after_bb, 'unwind': None, 'span': span}
+            after = f['blocks'][after_bb]
+            d_ty = dest.get('ty', '')
+            if build == 'wrap_some_else_none':
+                after['stmts'].append(_assign(dest, _agg(OPT[0], 'Some', 1, [_use(res_local, ret_ty)], d_ty), span))
+                oth['stmts'].append(_assign(dest, _agg(OPT[0], 'None', 0, [], d_ty), span))
+            elif build == 'wrap_same_else_same':
+                adt, variants = recv_kind
+                names = dict((int(a), b) for a, b in variants)
+                other = 1 - run_on
+                after['stmts'].append(_assign(dest, _agg(adt, names[run_on], run_on, [_use(res_local, ret_ty)], d_ty), span))
+                if adt == OPT[0]:
+                    oth['stmts'].append(_assign(dest, _agg(adt, 'None', 0, [], d_ty), span))
+                else:
+                    oth['stmts'].append(_assign(dest, _agg(adt, names[other], other, [_use(r_local, '', 'move', [{'k': 'downcast', 'variant': names[other], 'vidx': other}, {'k': 'field', 'i': 0, 'ty': '', 'name': '0'}])], d_ty), span))
+            elif build == 'value_else_default':
+                after['stmts'].append(_assign(dest, {'k': 'use', 'op': _use(res_local, ret_ty)}, span))
+                oth['stmts'].append(_assign(dest, {'k': 'use', 'op': default}, span))
+            elif build == 'value_else_false':
+                after['stmts'].append(_assign(dest, {'k': 'use', 'op': _use(res_local, ret_ty)}, span))
+                oth['stmts'].append(_assign(dest, {'k': 'use', 'op': {'k': 'const', 'ty': 'bool', 'text': 'const false', 'val': '0'}}, span))
+            elif build == 'value_else_payload':
+                adt, variants = recv_kind
+                names = dict((int(a), b) for a, b in variants)
+                other = 1 - run_on
+                after['stmts'].append(_assign(dest, {'k': 'use', 'op': _use(res_local, ret_ty)}, span))
+                oth['stmts'].append(_assign(dest, {'k': 'use', 'op': _use(r_local, d_ty, 'move', [{'k': 'downcast', 'variant': names[other], 'vidx': other}, {'k': 'field', 'i': 0, 'ty': d_ty, 'name': '0'}])}, span))
+            elif build == 'value_else_same':
+                after['stmts'].append(_assign(dest, {'k': 'use', 'op': _use(res_local, ret_ty)}, span))
+                oth['stmts'].append(_assign(dest, {'k': 'use', 'op': _use(r_local, r_ty)}, span))
+            _inline_call(f, run_bb, g)
+            count[t.get('callee')] = count.get(t.get('callee'), 0) + 1
+    for c, n in sorted(count.items()):
+        notes.append('combinator %s with a closure rewritten as the match it stands for at %d site(s)' % (c.rsplit('::', 1)[-1] if '::' in c else c, n))
     return notes
